@@ -508,7 +508,8 @@ impl StorageEngine {
             Some(stored_value) => {
                 match &mut stored_value.value {
                     Value::Stream(stream) => {
-                        let id = stream.add_auto(fields);
+                        let id = stream.try_add_auto(fields).ok_or_else(|| FerrousError::Command(CommandError::Generic(
+                            "The stream has exhausted the last possible ID, unable to add more items".to_string())))?;
                         shard_guard.mark_modified(&key);
                         id
                     }
